@@ -21,8 +21,8 @@ from wsproto.utilities import RemoteProtocolError as WSRemoteProtocolError
 from . import aio
 from .clients import Client, H1Parser, WSParser
 from .core import Chooser, digest
-from .explore import ExecResult
-from .harness import default_observation, describe, generic_violations
+from .explore import ExecResult, V
+from .harness import WATCHDOG_S, NeverYields, default_observation, describe, generic_violations, watchdog
 
 
 def run_world_with(engine: str, scenario: dict, chooser: Chooser) -> Any:
@@ -73,7 +73,15 @@ def case_execute(build: Callable[[Any, Callable[[int, str], int]], tuple],
 
         engine, scenario, case = build(params, pick)
         n_data = len(chooser.trace)
-        w = run_world_with(engine, scenario, chooser)
+        try:
+            with watchdog(WATCHDOG_S):
+                w = run_world_with(engine, scenario, chooser)
+        except NeverYields as e:
+            # server code that computes for ever inside one step (e.g. module-level state that grows from execution to
+            # execution of a worker process): reported, so that the run ends instead of hanging
+            return ExecResult(list(chooser.trace),
+                              [V("never-yields", str(e)[:80], f"execution exceeded {WATCHDOG_S}s of wall time inside one step")],
+                              "never-yields", True, (), {"params": repr(params)[:300], "choices": list(prefix)})
         viol = _thin(generic_violations(w) + oracle(w, params, case))
         obs = observe(w, params, case) if observe is not None else default_observation(w)
         choices = chooser.choices
